@@ -31,7 +31,7 @@ func (a Any) ReferenceTargets(ctx context.Context, targetCtx *TargetContext) ref
 		if targetCtx.ParentRangePtr != nil {
 			rangePtr = targetCtx.ParentRangePtr
 		} else {
-			rangePtr = a.expr.Range().Ptr()
+			rangePtr = closedRange(a.expr.Range()).Ptr()
 		}
 
 		return reference.Targets{
